@@ -36,7 +36,7 @@ POOL = [("A", 0x41), ("a", 0x61), ("f", 0x66), ("i", 0x69), ("l", 0x6C), ("zero"
         ("f_i.liga", None), ("f.liga", None), ("i.liga", None), ("uni0041", None), ("uni0041.1", None), ("u1F600", None),
         ("emoji.alt", None), ("f_emoji", None), ("a-b", None), ("é", None), ("x" * 70, None), ("a." + "y" * 64, None),
         (".notdef", None), ("_part", None), ("f_nul", None), ("zero.sc", None), ("A.sc.alt", None), ("uni00410042", None),
-        ("A_A", None)]
+        ("A_A", None), ("a_" * 14 + "a", None)]
 
 
 def gen(rng):
@@ -425,6 +425,9 @@ def compile_level(ctx):
             glyphs.append({"name": "Ohm.alt", "width": 500, "unicodes": [], "contours": [[(0, 0, "line"), (121, 0, "line"), (60, 90, "line")]]})
         if not any(g["name"] == "a" for g in glyphs):
             glyphs.append({"name": "a", "width": 500, "unicodes": [0x61], "contours": [[(0, 0, "line"), (9, 0, "line"), (5, 9, "line")]]})
+        if i % 4 == 0 and not any(g["name"] == "a_" * 14 + "a" for g in glyphs):
+            # a ligature of fifteen parts: its generated name, uni + 15 x 4 hex digits, is EXACTLY 63 characters -- the longest legal name
+            glyphs.append({"name": "a_" * 14 + "a", "width": 900, "unicodes": [], "contours": [[(0, 0, "line"), (11, 0, "line"), (5, 9, "line")]]})
         if i % 2 == 1:
             # the customary NULL glyph: U+0000 is a code point like any other (uni0000), and so is its suffixed variant
             glyphs.append({"name": "NULL", "width": 0, "unicodes": [0], "contours": []})
@@ -551,6 +554,8 @@ def compile_level(ctx):
                 want = ("u%04X" if u > 0xFFFF else "uni%04X") % u
                 if not final[idx].startswith(want):
                     ctx.spec_failure(case, "glyph %r (U+%04X) is named %r, expected %s" % (n, u, final[idx], want))
+            elif n == "a_" * 14 + "a" and not psn and final[idx] != "uni" + "0061" * 15:
+                ctx.spec_failure(case, "the fifteen-part ligature is named %r; its generated name %r has 63 characters, which is legal" % (final[idx], "uni" + "0061" * 15))
             elif n == "NULL.alt" and not psn and not final[idx].startswith("uni0000.alt"):
                 ctx.spec_failure(case, "glyph 'NULL.alt' is named %r, expected uni0000.alt (U+0000 is the base glyph's code point)" % final[idx])
             elif n == "Ohm.alt" and not psn and not final[idx].startswith("uni2126.alt"):
